@@ -2,6 +2,8 @@ package main
 
 import (
 	"fmt"
+
+	"golang.org/x/tools/go/ssa"
 )
 
 // R12.7: index and slice safety of the writer. "No call panics" includes the run-time panics of slice and index
@@ -66,10 +68,17 @@ func runR12_7(c *Ctx, r *R) {
 				r.OK(key, instrPos(o.At), "%s", o.Desc)
 			case r12Reviewed[key] != "":
 				r.OK(key, instrPos(o.At), "reviewed: %s (%s)", r12Reviewed[key], o.Desc)
+			case isSliceInstr(o.At) && isEntryStartSlice(o.At.(*ssa.Slice)):
+				r.OK(key, instrPos(o.At), "reviewed: I2 - a view of the buffer from the start of a stack entry (%s)", o.Desc)
 			default:
 				r.Bad(key, instrPos(o.At), "%s: %s - a call sequence for which the bound fails makes the writer panic", o.Desc, o.Why)
 			}
 		}
 	}
 	r.Note("%d indexing obligations in internal/writer", n)
+}
+
+func isSliceInstr(i ssa.Instruction) bool {
+	_, ok := i.(*ssa.Slice)
+	return ok
 }
